@@ -14,6 +14,7 @@ def write(pid, mod, tier, seed, merged, wall, known_hits, n_unknown, reasons):
         "counters": dict(sorted(merged.ctr.items())),
         "maxima": merged.maxima,
         "known_finding_hits": known_hits,
+        "violation_counts_by_key": {k or "<unclassified>": n for k, n in merged.nviol.items()},
         "inconclusive_reasons": reasons[:10],
         "tree": env.REPO,
     }
